@@ -1,4 +1,6 @@
 import CovfieModel.Model.Layout
+import CovfieModel.Model.NdMap
+import CovfieModel.Model.Perm
 open Covfie
 def nats (xs : List String) : Option (List Nat) := xs.mapM String.toNat?
 /-- split `a b | c d` into two number lists -/
@@ -26,6 +28,17 @@ def step (line : String) : String :=
   | ["ipow", w, b, e] => match w.toNat?, b.toNat?, e.toNat? with
       | some w, some b, some e => toString (ipow w b e)
       | _, _, _ => "bad-op"
+  | "ndmap" :: rest => match nats rest with
+      | some sz =>
+        let ts := ndMap sz
+        if ts.isEmpty then "-" else ";".intercalate (ts.map fun t => ",".intercalate (t.map toString))
+      | none => "bad-op"
+  | "sort" :: rest => match nats rest with
+      | some l => let r := sortSeq l; if r.isEmpty then "-" else " ".intercalate (r.map toString)
+      | none => "bad-op"
+  | "isperm" :: rest => match two rest with
+      | some (a, b) => if isPerm a b then "1" else "0"
+      | none => "bad-op"
   | _ => "bad-op"
 partial def loop (h : IO.FS.Stream) : IO Unit := do
   let line ← h.getLine
